@@ -73,7 +73,7 @@ pub struct Builder<'a, I: HInput<'a>, E: HErr<'a, I>> {
     env: RefCell<Vec<Handle<'a, I, E>>>,
     /// `(Memo id a)`: one `memoized()` per id; a second occurrence of the id is a clone of the first (clones of a memoized
     /// parser share its cache key)
-    memo: RefCell<std::collections::HashMap<usize, P<'a, I, E>>>,
+    memo: RefCell<std::collections::HashMap<usize, chumsky::combinator::Memoized<P<'a, I, E>>>>,
     _p: PhantomData<fn() -> (&'a (), E)>,
 }
 
@@ -181,8 +181,9 @@ where
 /// Every other configured `just` is configured through a REFERENCE to the parser (`(&just(..)).configure(..)`: the blanket
 /// `ConfigParser for &T`, which goes through `Mode::invoke_cfg`); the referent is leaked (a few bytes per case).
 static CFG_BY_REF: std::sync::atomic::AtomicUsize = std::sync::atomic::AtomicUsize::new(0);
-fn cfg_by_ref() -> bool {
-    CFG_BY_REF.fetch_add(1, std::sync::atomic::Ordering::Relaxed) % 2 == 1
+/// 0: by value, 1: through a reference, 2: the `Configure` value boxed directly
+fn cfg_form() -> usize {
+    CFG_BY_REF.fetch_add(1, std::sync::atomic::Ordering::Relaxed) % 3
 }
 
 // the sequence type must be the same for the built-in and the configured sequence
@@ -192,13 +193,21 @@ where
     E: HErr<'a, I>,
 {
     let j = just::<String, I, Ex<E>>(string_of(ts));
-    if cfg_by_ref() {
-        let r: &'a _ = Box::leak(Box::new(j));
-        bx(r.configure(|cfg, ctx: &Val| cfg.seq(char::ctx_seq(ctx).into_iter().collect::<String>()))
-            .map(|s: String| Val::toks(s.chars())))
-    } else {
-        bx(j.configure(|cfg, ctx: &Val| cfg.seq(char::ctx_seq(ctx).into_iter().collect::<String>()))
-            .map(|s: String| Val::toks(s.chars())))
+    match cfg_form() {
+        1 => {
+            let r: &'a _ = Box::leak(Box::new(j));
+            bx(r.configure(|cfg, ctx: &Val| cfg.seq(char::ctx_seq(ctx).into_iter().collect::<String>()))
+                .map(|s: String| Val::toks(s.chars())))
+        }
+        // the `Configure` value itself is type-erased (its own `go_emit` / `go_check` entry points), the mapper sits outside
+        2 => {
+            let c: Boxed<'a, 'a, I, String, Ex<E>> =
+                j.configure(|cfg, ctx: &Val| cfg.seq(char::ctx_seq(ctx).into_iter().collect::<String>())).boxed();
+            bx(c.map(|s: String| Val::toks(s.chars())))
+        }
+        _ => bx(j
+            .configure(|cfg, ctx: &Val| cfg.seq(char::ctx_seq(ctx).into_iter().collect::<String>()))
+            .map(|s: String| Val::toks(s.chars()))),
     }
 }
 
@@ -208,11 +217,16 @@ where
     E: HErr<'a, I>,
 {
     let j = just::<Vec<I::Token>, I, Ex<E>>(I::Token::seq(ts));
-    if cfg_by_ref() {
-        let r: &'a _ = Box::leak(Box::new(j));
-        bx(r.configure(|cfg, ctx: &Val| cfg.seq(I::Token::ctx_seq(ctx))).map(|v: Vec<I::Token>| Val::toks(v)))
-    } else {
-        bx(j.configure(|cfg, ctx: &Val| cfg.seq(I::Token::ctx_seq(ctx))).map(|v: Vec<I::Token>| Val::toks(v)))
+    match cfg_form() {
+        1 => {
+            let r: &'a _ = Box::leak(Box::new(j));
+            bx(r.configure(|cfg, ctx: &Val| cfg.seq(I::Token::ctx_seq(ctx))).map(|v: Vec<I::Token>| Val::toks(v)))
+        }
+        2 => {
+            let c: Boxed<'a, 'a, I, Vec<I::Token>, Ex<E>> = j.configure(|cfg, ctx: &Val| cfg.seq(I::Token::ctx_seq(ctx))).boxed();
+            bx(c.map(|v: Vec<I::Token>| Val::toks(v)))
+        }
+        _ => bx(j.configure(|cfg, ctx: &Val| cfg.seq(I::Token::ctx_seq(ctx))).map(|v: Vec<I::Token>| Val::toks(v))),
     }
 }
 
@@ -392,6 +406,75 @@ where
     bx(none_of::<Vec<I::Token>, I, Ex<E>>(I::Token::seq(ts)).map(Val::tok))
 }
 
+// ----- the grapheme kinds: the sequence of `just` / `one_of` / `none_of` as `&str`, `&Graphemes` or `Vec<&Grapheme>` -----
+//
+// chumsky implements `Seq<&Grapheme>` for `&str` and `&Graphemes` (container.rs) next to the generic `Vec<T>`; the three forms
+// must denote the same class. The text forms are used (chosen by the content of the sequence) whenever the concatenation of the clusters segments back
+// into exactly those clusters (the reference segmentation of `input::GText`), otherwise the `Vec` form.
+
+fn gr_text(ts: &[u32]) -> Option<&'static str> {
+    let t = crate::input::GText::new(ts)?;
+    if ts.is_empty() {
+        return None;
+    }
+    Some(Box::leak(t.s.clone().into_boxed_str()))
+}
+
+fn gr_form(ts: &[u32]) -> (usize, Option<&'static str>) {
+    // the form is a function of the sequence (so a case always runs the same way): 0 `&str`, 1 `&Graphemes`, 2 `Vec`
+    let k = (ts.iter().map(|&t| t as usize % 7).sum::<usize>() + ts.len()) % 3;
+    if k == 2 {
+        (2, None)
+    } else {
+        match gr_text(ts) {
+            Some(s) => (k, Some(s)),
+            None => (2, None),
+        }
+    }
+}
+
+pub fn v_one_of_gr<'a, I, E>(ts: &[u32]) -> P<'a, I, E>
+where
+    I: HInput<'a, Token = &'a chumsky::text::Grapheme> + ValueInput<'a>,
+    E: HErr<'a, I>,
+    &'a chumsky::text::Grapheme: HTok,
+{
+    match gr_form(ts) {
+        (0, Some(s)) => bx(one_of::<&'a str, I, Ex<E>>(s).map(Val::tok)),
+        (1, Some(s)) => bx(one_of::<&'a chumsky::text::Graphemes, I, Ex<E>>(chumsky::text::Graphemes::new(s)).map(Val::tok)),
+        _ => v_one_of_vec(ts),
+    }
+}
+
+pub fn v_none_of_gr<'a, I, E>(ts: &[u32]) -> P<'a, I, E>
+where
+    I: HInput<'a, Token = &'a chumsky::text::Grapheme> + ValueInput<'a>,
+    E: HErr<'a, I>,
+    &'a chumsky::text::Grapheme: HTok,
+{
+    match gr_form(ts) {
+        (0, Some(s)) => bx(none_of::<&'a str, I, Ex<E>>(s).map(Val::tok)),
+        (1, Some(s)) => bx(none_of::<&'a chumsky::text::Graphemes, I, Ex<E>>(chumsky::text::Graphemes::new(s)).map(Val::tok)),
+        _ => v_none_of_vec(ts),
+    }
+}
+
+pub fn just_gr<'a, I, E>(ts: &[u32]) -> P<'a, I, E>
+where
+    I: HInput<'a, Token = &'a chumsky::text::Grapheme>,
+    E: HErr<'a, I>,
+    &'a chumsky::text::Grapheme: HTok,
+{
+    let ids: Vec<u32> = ts.to_vec();
+    let out = move || Val::List(ids.iter().map(|&t| Val::Tok(t)).collect());
+    match (ts.len(), gr_form(ts)) {
+        (0 | 1, _) => just_vec(ts),
+        (_, (0, Some(s))) => bx(just::<&'a str, I, Ex<E>>(s).map(move |_| out())),
+        (_, (1, Some(s))) => bx(just::<&'a chumsky::text::Graphemes, I, Ex<E>>(chumsky::text::Graphemes::new(s)).map(move |_| out())),
+        _ => just_vec(ts),
+    }
+}
+
 pub fn v_select<'a, I, E>(p: Pred, f: Fn1) -> P<'a, I, E>
 where
     I: HInput<'a> + ValueInput<'a>,
@@ -460,6 +543,20 @@ where
 {
     let children = chumsky::select_ref! { TT::Group(_, children) => tree_input(children.as_slice()) };
     bx(a.nested_in::<_, TreeIn<'a>, Ex<E>>(children))
+}
+
+/// `(NestedVia a)`: the same with a compound `b`: a first alternative that looks at the token and rejects it (leaving its
+/// pending error behind), then the group selector: `a.nested_in(never.or(group))`.
+pub fn nested_tree_via<'a, E>(a: P<'a, TreeIn<'a>, E>) -> P<'a, TreeIn<'a>, E>
+where
+    E: HErr<'a, TreeIn<'a>>,
+{
+    fn never() -> bool {
+        false
+    }
+    let no = chumsky::select_ref! { TT::Group(_, children) if never() => tree_input(children.as_slice()) };
+    let children = chumsky::select_ref! { TT::Group(_, children) => tree_input(children.as_slice()) };
+    bx(a.nested_in::<_, TreeIn<'a>, Ex<E>>(no.or(children)))
 }
 
 macro_rules! tuple_of {
@@ -665,13 +762,14 @@ impl<'a, I: HInput<'a>, E: HErr<'a, I>> Builder<'a, I, E> {
 
             // ---------- version 2: memoization, recursion, pratt ----------
             G::Memo(id, a) => {
+                // a second occurrence of the id is `Clone::clone` of the `Memoized` value itself (not of a box around it)
                 let hit = self.memo.borrow().get(id).cloned();
                 match hit {
-                    Some(p) => p,
+                    Some(m) => bx(m),
                     None => {
-                        let p = bx(self.g(a)?.memoized());
-                        self.memo.borrow_mut().insert(*id, p.clone());
-                        p
+                        let m = self.g(a)?.memoized();
+                        self.memo.borrow_mut().insert(*id, m.clone());
+                        bx(m)
                     }
                 }
             }
@@ -713,6 +811,7 @@ impl<'a, I: HInput<'a>, E: HErr<'a, I>> Builder<'a, I, E> {
             }
             G::Boxed(a) => bx(self.g(a)?.boxed()),
             G::NestedIn(a) => I::nested_in(self.g(a)?)?,
+            G::NestedVia(a) => I::nested_via(self.g(a)?)?,
             G::WithState(k, a) => bx(self.g(a)?.with_state(HState { h: *k })),
             G::Skip(n) => I::skip(*n)?,
             G::Lazy(a) => I::lazy(self.g(a)?)?,
@@ -832,7 +931,7 @@ impl<'a, I: HInput<'a>, E: HErr<'a, I>> Builder<'a, I, E> {
             IT::ISep(a, sep, lo, hi, lead, trail) => {
                 bxu(self.sep(self.g(a)?, self.g(sep)?, *lo, *hi, *lead, *trail))
             }
-            IT::IRepCfg(a, lo, hi, ck) if *ck >= 4 => bxu(
+            IT::IRepCfg(a, lo, hi, ck) if (4..=8).contains(ck) => bxu(
                 self.rep(self.g(a)?, *lo, *hi).try_configure(rep_try_cfg::<I, E>(*ck, *lo)),
             ),
             IT::IRepCfg(a, lo, hi, ck) => bxu(
@@ -914,7 +1013,7 @@ impl<'a, I: HInput<'a>, E: HErr<'a, I>> Builder<'a, I, E> {
             IT::ISep(a, sep, lo, hi, lead, trail) if !mapped => {
                 self.iter2(self.sep(self.g(a)?, self.g(sep)?, *lo, *hi, *lead, *trail), &ads, fin)
             }
-            IT::IRepCfg(a, lo, hi, ck) if !mapped && *ck >= 4 => self.iter2(
+            IT::IRepCfg(a, lo, hi, ck) if !mapped && (4..=8).contains(ck) => self.iter2(
                 self.rep(self.g(a)?, *lo, *hi).try_configure(rep_try_cfg::<I, E>(*ck, *lo)),
                 &ads,
                 fin,
@@ -961,7 +1060,7 @@ impl<'a, I: HInput<'a>, E: HErr<'a, I>> Builder<'a, I, E> {
             IT::ISep(a, sep, lo, hi, lead, trail) => {
                 self.both2(self.sep(self.g_unit(a)?, self.g(sep)?, *lo, *hi, *lead, *trail), &ads, fin)
             }
-            IT::IRepCfg(a, lo, hi, ck) if *ck >= 4 => self.both2(
+            IT::IRepCfg(a, lo, hi, ck) if (4..=8).contains(ck) => self.both2(
                 self.rep(self.g_unit(a)?, *lo, *hi).try_configure(rep_try_cfg::<I, E>(*ck, *lo)),
                 &ads,
                 fin,
@@ -1072,6 +1171,11 @@ impl<'a, I: HInput<'a>, E: HErr<'a, I>> Builder<'a, I, E> {
             Fin::Collect(CKind::Vec) => bx(it.collect::<Vec<T>>().map(items_val::<T, _>)),
             Fin::Collect(CKind::Count) => bx(it.collect::<usize>().map(Val::Nat)),
             Fin::Collect(CKind::Unit) => bx(it.collect::<()>().map(|()| Val::Unit)),
+            // every other fixed-size collection goes into the boxed container `Box<[T; N]>` (its own `ContainerExactly` impl)
+            Fin::Exactly(1) if boxed_exactly() => bx(it.collect_exactly::<Box<[T; 1]>>().map(|b| items_val::<T, _>(*b))),
+            Fin::Exactly(2) if boxed_exactly() => bx(it.collect_exactly::<Box<[T; 2]>>().map(|b| items_val::<T, _>(*b))),
+            Fin::Exactly(3) if boxed_exactly() => bx(it.collect_exactly::<Box<[T; 3]>>().map(|b| items_val::<T, _>(*b))),
+            Fin::Exactly(4) if boxed_exactly() => bx(it.collect_exactly::<Box<[T; 4]>>().map(|b| items_val::<T, _>(*b))),
             Fin::Exactly(0) => bx(it.collect_exactly::<[T; 0]>().map(items_val::<T, _>)),
             Fin::Exactly(1) => bx(it.collect_exactly::<[T; 1]>().map(items_val::<T, _>)),
             Fin::Exactly(2) => bx(it.collect_exactly::<[T; 2]>().map(items_val::<T, _>)),
@@ -1166,12 +1270,20 @@ fn rep_try_cfg<'a, I: HInput<'a>, E: HErr<'a, I>>(
     }
 }
 
+static BOXED_EXACTLY: std::sync::atomic::AtomicUsize = std::sync::atomic::AtomicUsize::new(0);
+fn boxed_exactly() -> bool {
+    BOXED_EXACTLY.fetch_add(1, std::sync::atomic::Ordering::Relaxed) % 2 == 1
+}
+
 /// The configuring closure of `IRepCfg`: which bounds it sets from the context-derived count `n`.
 fn rep_cfg(cfg: chumsky::combinator::RepeatedCfg, ck: usize, n: usize) -> chumsky::combinator::RepeatedCfg {
     match ck {
         0 => cfg.exactly(n),
         1 => cfg.at_least(n),
         2 => cfg.at_most(n),
+        // the same two bounds set in the two builder orders
+        9 => cfg.at_most(n).at_least(n / 2),
+        10 => cfg.at_least(n / 2).at_most(n),
         _ => cfg,
     }
 }
